@@ -4,7 +4,7 @@ import contracts.compute as CP
 import contracts.chunk as CH
 import contracts.standins_iter as B
 
-PROVED = [CP.do_compute_1, CP.do_compute_2, CP.do_compute_3, CH.chunk_split]
+PROVED = [CP.do_compute_1, CP.do_compute_2, CP.do_compute_3, CH.chunk_split, CH.concatenate2, CH.merge2]
 
 PROPERTY = Property(
     "C08", "proof",
